@@ -42,6 +42,8 @@ structure RunCfg where
   maxCycle : Nat
   retErr : Bool := false
   cancelAt : Option Nat := none
+  /-- a listener cancels the context while it handles its k-th callback (0-based) -/
+  cancelAtEvent : Option Nat := none
   order : Nat → Option (List String) := fun _ => none   -- pass number (0-based) ↦ keys in visiting order
   deriving Inhabited
 
@@ -58,6 +60,7 @@ def LoopState.emit (ls : LoopState) (e : TEv) : LoopState := { ls with trace := 
     returned error when the first reports cancellation -/
 def poll (rc : RunCfg) (ls : LoopState) : Bool × LoopState :=
   let c := ls.es.cancelled || (match rc.cancelAt with | some k => decide (k ≤ ls.polls) | none => false)
+    || (match rc.cancelAtEvent with | some k => decide (k < ls.trace.length) | none => false)
   (c, { ls with polls := ls.polls + (if c then 2 else 1) })
 
 def isRetracted (es : EState) (e : RuleEntry) : Bool := es.retracted.contains e.rule.name
